@@ -21,7 +21,9 @@ pub type CH = BuildHasherDefault<ConstHasher>;
 /// value with a chosen heap size
 pub struct SV(pub usize);
 impl HeapSize for SV { fn heap_size(&self) -> usize { self.0 } }
-impl Clone for SV { fn clone(&self) -> SV { SV(self.0) } }
+/// cloning sheds one byte, like a String that drops its spare capacity when cloned: the clone's own estimate
+/// differs from the source's, so a clone() that recomputes sizes through the wrong pointer is visible
+impl Clone for SV { fn clone(&self) -> SV { SV(self.0 - 1) } }
 
 pub const E: usize = std::mem::size_of::<Entry<u8, SV>>();
 pub const N: usize = 4;
